@@ -271,9 +271,15 @@ func ruleChannelGuards(c *Ctx, rule string) {
 		}
 		n := 0
 		var famCalls []callSite
+		fmBody := map[*ssa.Function]bool{}
 		for _, f2 := range family(L, fn) {
 			if f2.Parent() == nil {
 				famCalls = append(famCalls, callsIn(f2)...)
+				// bodies of callback-driven loops: the name is emitted when the callback keeps the element
+				for _, fm := range filterMapLoops(f2) {
+					fmBody[fm.body] = true
+					famCalls = append(famCalls, callsIn(fm.body)...)
+				}
 			}
 		}
 		for _, cs := range famCalls {
@@ -281,6 +287,25 @@ func ruleChannelGuards(c *Ctx, rule string) {
 				continue
 			}
 			n++
+			if fmBody[cs.fn] {
+				// the call's result is what is kept: every return it reaches keeps the element, every other return skips it
+				kept, skipped, okFlags := fmKeeps(cs.fn)
+				okShape := okFlags && len(kept) > 0
+				for _, r := range kept {
+					if !instrDominates(cs.instr, r) {
+						okShape = false
+					}
+				}
+				for _, r := range skipped {
+					if reachableAfter(cs.instr, r) {
+						okShape = false
+					}
+				}
+				if !okShape {
+					c.undecided(rule, fnName(fn)+":ChannelName-guard", "the callback does not keep exactly the elements for which it names the channel")
+					continue
+				}
+			}
 			rows, ids, err := reachedTable(L, cs.instr)
 			if err != "" {
 				c.undecided(rule, fnName(fn)+":ChannelName-guard", err)
@@ -418,6 +443,17 @@ func ruleNoEarlyExitFn(c *Ctx, rule string, fn *ssa.Function) {
 	{
 		hs, exits := loopExits(fn)
 		if hs == 0 {
+			// the loop may be driven by a helper that applies a callback to every element (filtermap.go): the helper's loop
+			// is exhaustive by its shape and a callback can only skip its own element
+			if fms := filterMapLoops(fn); len(fms) > 0 {
+				for _, fm := range fms {
+					_, _, okFlags := fmKeeps(fm.body)
+					c.check(okFlags, rule, fnName(fn)+":loop-early-exit", L.pos(fm.call.Pos()),
+						fnName(fn)+": the loop handles every element (it is left only when exhausted or with an error)", "loop inside "+fm.helper.Name()+": applies the callback to every element in order; the callback keeps or skips its own element only")
+					c.seen(fnName(fm.helper))
+				}
+				return
+			}
 			c.undecided(rule, fnName(fn)+":loops", "no range loop found (the statement list is built differently)")
 			return
 		}
